@@ -433,6 +433,7 @@ func c04(run *ev.Run, tier string) {
 			}
 		})
 	}
+	c04Spellings(run)
 	c04ApkAlignment(run)
 	run.Set("archives_checked", archives)
 	run.Set("archives_per_format", perFormat)
@@ -562,4 +563,49 @@ func c04ApkAlignment(run *ev.Run) {
 	s = mk()
 	s.APK.Sig.KeyFile = testKey("rsa_unprotected.priv")
 	check("sig-testkey", s, true)
+}
+
+// c04Spellings: two entries whose destinations are the same path spelled
+// differently. Preparation may reject the pair; if it is accepted the archive
+// must still have unique member names.
+func c04Spellings(run *ev.Run) {
+	dir := newWorkDir("c04-spell")
+	defer removeWorkDir(dir)
+	a := filepath.Join(dir, "a.txt")
+	b := filepath.Join(dir, "b.txt")
+	_ = os.WriteFile(a, []byte("a\n"), 0o644)
+	_ = os.WriteFile(b, []byte("b\n"), 0o644)
+	pairs := [][2]string{{"/opt/sp/f", "opt/sp/f"}, {"/opt/sp/f", "/opt//sp/f"}, {"/opt/sp/f", "/opt/./sp/f"}, {"/opt/sp/f", "/opt/x/../sp/f"}, {"/opt/sp/d/", "/opt/sp/d"}}
+	for _, pr0 := range pairs {
+		pairs = append(pairs, [2]string{pr0[1], pr0[0]}) // both orders
+	}
+	for _, pr := range pairs {
+		for _, types := range [][2]string{{"", ""}, {"config", ""}, {"dir", "dir"}, {"symlink", ""}} {
+			s := &gen.Spec{Name: "spell", Arch: "amd64", Version: "1.0.0", Maintainer: "S <s@example.com>", Description: "d", MTime: 1500000000}
+			s.RPM.BuildHost = "verif-host"
+			mk := func(dst, typ, src string) *gen.Content {
+				c := &gen.Content{Dst: dst, Type: typ}
+				switch typ {
+				case "dir":
+				case "symlink":
+					c.Src = "/nonexistent-verif/t"
+				default:
+					c.Src = src
+				}
+				return c
+			}
+			s.Contents = []*gen.Content{mk(pr[0], types[0], a), mk(pr[1], types[1], b)}
+			for _, f := range formats {
+				run.Case(fmt.Sprintf("spelling|%s|%s|%v|%s", pr[0], pr[1], types, f), true)
+				res := buildYAML(s.YAML(), f)
+				if res.Err != nil || res.Panic != "" {
+					continue // rejected: fine
+				}
+				p := dec.Decode(f, res.Bytes, false)
+				for _, x := range structural(f, res.Bytes, p, false, false) {
+					run.Violate("C04/"+f+"/"+x.kind, map[string]any{"destinations": pr, "types": types, "detail": ev.Short(x.detail, 400)})
+				}
+			}
+		}
+	}
 }
